@@ -218,3 +218,54 @@ contract(F, "__lshift__.lshift_iterator.__iter__", types=dict(self="lshift_itera
               "(unknown at 60 s in z3 and cvc5), so the function is tier B.  "
               "Scope of the attempted contract: leaf destination rank, no start position, collection off.  Content clauses (what stays behind, untouched coordinates) and interior "
               "ranks with the next-rank pop are decided by C05's bounded part")
+
+# ---------------------------------------------------------------- shape iteration (C07)
+SHAPE_REQ = ["wf(self)", "isnone(self._max_coord)", "self.g_leaf", "not Metrics.collecting", "step >= 1",
+             "forall(lambda k: typeis(self.payloads[k], 'Payload'), 0, len(self.payloads))"]
+STORED_OR_DEFAULT = [
+    "forall(lambda k: out[k][0] == start + k * step, 0, len(out))",
+    "forall(lambda k: allocated(out[k][1]), 0, len(out))",
+    # the payload delivered is the stored payload object, or a fresh default when the coordinate is absent
+    "forall(lambda k: forall(lambda j: implies(self.coords[j] == out[k][0], out[k][1] is self.payloads[j]), 0, len(self.coords)), 0, len(out))",
+    "forall(lambda k: implies(forall(lambda j: self.coords[j] != out[k][0], 0, len(self.coords)), fresh(out[k][1])), 0, len(out))",
+    "forall(lambda k: implies(forall(lambda j: self.coords[j] != out[k][0], 0, len(self.coords)), typeis(out[k][1], 'Payload')), 0, len(out))",
+    "forall(lambda k: implies(forall(lambda j: self.coords[j] != out[k][0], 0, len(self.coords)), out[k][1].value == self.g_default), 0, len(out))"]
+
+contract(F, "iterRangeShape",
+         cases=[dict(self="Fiber", start="int", end="int"), dict(self="Fiber", start="int", end="int", step="int")],
+         case_names=["unit_step", "step"],
+         yields=dict(elem=ELEM, abstract="(yielded.coord, yielded.payload)"),
+         requires=SHAPE_REQ, modifies=BOOK,
+         per_case={"unit_step": dict(ensures=["forall(lambda k: out[k][0] == start + k, 0, len(out))"])},
+         ensures={"C07 C10": ["unchanged_list(self.coords)", "unchanged_list(self.payloads)",
+                              "len(out) == (0 if end <= start else (end - start + step - 1) // step)"] + STORED_OR_DEFAULT},
+         loops={0: dict(types={"c": "int", "p": "Payload|Fiber"}, modifies=BOOK,
+                        invariant=["wf(self)", "not is_collecting", "len(out) == _i0"] + STORED_OR_DEFAULT)},
+         note="every coordinate of range(start, end, step), each with the stored payload or a fresh default; the tree is not touched")
+
+REF_POST = [
+    "forall(lambda k: out[k][0] == start + k * step, 0, len(out))",
+    # every visited coordinate is now stored ...
+    "forall(lambda k: exists(lambda j: 0 <= j and j < len(self.coords) and self.coords[j] == out[k][0]), 0, len(out))",
+    # ... and the payload delivered is the stored payload object at that coordinate
+    "forall(lambda k: forall(lambda j: implies(self.coords[j] == out[k][0], out[k][1] is self.payloads[j]), 0, len(self.coords)), 0, len(out))",
+    # every element that was stored is still stored with the same payload object (no other point is disturbed)
+    "forall(lambda i: exists(lambda j: 0 <= j and j < len(self.coords) and self.coords[j] == old(self.coords[i]) and self.payloads[j] is old(self.payloads[i])), 0, old(len(self.coords)))",
+    # exactly the visited absent coordinates were inserted: every stored coordinate was stored before or is a visited one
+    "forall(lambda j: exists(lambda i: 0 <= i and i < old(len(self.coords)) and old(self.coords[i]) == self.coords[j]) or "
+    "(start <= self.coords[j] and self.coords[j] < start + len(out) * step and (self.coords[j] - start) % step == 0), 0, len(self.coords))"]
+
+contract(F, "iterRangeShapeRef",
+         cases=[dict(self="Fiber", start="int", end="int")],
+         case_names=["unit_step"],
+         yields=dict(elem=ELEM, abstract="(yielded.coord, yielded.payload)"),
+         requires=SHAPE_REQ, modifies=BOOK + ["list:self.coords", "list:self.payloads"],
+         per_case={"unit_step": dict(ensures=["forall(lambda k: out[k][0] == start + k, 0, len(out))"])},
+         ensures={"C07 C01": ["wf(self)", "forall(lambda k: typeis(self.payloads[k], 'Payload'), 0, len(self.payloads))",
+                              "len(out) == (0 if end <= start else (end - start + step - 1) // step)"] + REF_POST},
+         loops={0: dict(types={"c": "int", "p": "Payload|Fiber"}, modifies=BOOK + ["list:self.coords", "list:self.payloads"],
+                        invariant=["wf(self)", "not is_collecting", "len(out) == _i0", "isnone(self._max_coord)", "self.g_leaf",
+                                   "forall(lambda k: typeis(self.payloads[k], 'Payload'), 0, len(self.payloads))"] + REF_POST)},
+         note="reference variant: inserts exactly the visited absent coordinates, delivers the stored payload objects, disturbs nothing else. "
+              "Proved for the default step 1; with a symbolic step the visited-set clause is non-linear (k * step, % step) and both solvers give up, "
+              "so other steps are covered by C07's bounded part only")
